@@ -100,8 +100,12 @@ class CSSCharsetRule(cssrule.CSSRule):
 
         encodingtoken = self._nexttoken(tokenizer)
         encodingtype = self._type(encodingtoken)
-        encoding = self._stringtokenvalue(encodingtoken)
-        if self._prods.STRING != encodingtype or not encoding:
+        if self._prods.STRING == encodingtype:
+            encoding = self._stringtokenvalue(encodingtoken)
+        else:
+            # e.g. EOF token which has an empty value
+            encoding = None
+        if not encoding:
             wellformed = False
             self._log.error(
                 'CSSCharsetRule: no encoding found; %r.' % self._valuestr(cssText)
